@@ -33,7 +33,8 @@ ASSUMPTIONS = [
 
 
 def generate(ctx):
-    pass
+    from translator import gen_graph
+    ctx.facts = gen_graph.generate(ctx)
 
 
 def _traces(ctx, n, length):
